@@ -152,6 +152,9 @@ func runC11(c *Ctx) {
 		}
 	}
 
+	c.Rule("C11.S", "shim session IDs are unique and the client is told the key its connection is stored under", 2)
+	ruleShimSessionIDs(c, p, "C11.S")
+
 	// ---- C11.O
 	se := resolveShimEndpoints(c, p, "C11.O")
 	if se != nil && se.ByName["data"] != nil {
